@@ -17,9 +17,9 @@ func init() {
 		InitPkgs: []string{"filterutil", "rules"},
 		Jobs: func(tier string) []Job {
 			jobs := []Job{{Pkg: "rules", Func: "verifC17Vacuity", Vacuity: true}, {Pkg: "rules", Func: "verifC17Cap"}}
-			maxHost, maxE := 4, 6
+			maxHost, maxE := 8, 12
 			if tier == "thorough" {
-				maxHost, maxE = 6, 9
+				maxHost, maxE = 10, 15
 			}
 			for hl := 0; hl <= maxHost; hl++ {
 				for tail := 0; tail < 4; tail++ {
@@ -39,9 +39,9 @@ func init() {
 					}
 				}
 			}
-			rl := 3
+			rl := 5
 			if tier == "thorough" {
-				rl = 4
+				rl = 6
 			}
 			for hl := 1; hl <= rl; hl++ {
 				for tail := 0; tail < 3; tail++ {
@@ -62,8 +62,8 @@ func init() {
 		Setup:     setupNetip,
 		MustReach: []string{"c17.extract", "c17.etld.some", "c17.etld.none", "c17.request", "c17.thirdparty", "c17.hostname", "c17.cap"},
 		Bounds: map[string]string{
-			"quick":    "ExtractHostname: scheme 1..3 symbolic bytes, host 0..4 symbolic bytes over {z,q,.,-,1} plus a tail from {'',.com,.co.uk,.org}, six URL shapes (port, path, query, fragment); eTLD+1: host 0..6 symbolic bytes over {z,q,.} plus tail; NewRequest: host and source host 1..3 bytes plus tail; hostname requests incl. an upper-case letter; 4 KiB cap with 8 symbolic bytes around the boundary",
-			"thorough": "hosts up to 6 (ExtractHostname), 9 (eTLD+1) and 4 (NewRequest) symbolic bytes",
+			"quick":    "ExtractHostname: scheme 1..3 symbolic bytes, host 0..8 symbolic bytes over {z,q,.,-,1} plus a tail from {'',.com,.co.uk,.org}, six URL shapes (port, path, query, fragment); eTLD+1: host 0..12 symbolic bytes over {z,q,.} plus tail; NewRequest: host and source host 1..5 bytes plus tail; hostname requests incl. an upper-case letter; 4 KiB cap with 8 symbolic bytes around the boundary",
+			"thorough": "hosts up to 10 (ExtractHostname), 15 (eTLD+1) and 6 (NewRequest) symbolic bytes",
 		},
 		Outside:     []string{"the Public Suffix List data: replaced by a compact model (letters z,q,Z form no rule; tails .com .co.uk .org .uk) that is validated exhaustively against the real library on every run", "wildcard and exception PSL rules", "userinfo, IPv6 literals, a fragment directly after the host", "net/url itself: the claim 'the standard parser returns the host' is validated natively on sampled URLs of the grammar"},
 		Assumptions: []string{"publicsuffix.PublicSuffix == PSL model (validated); publicsuffix.EffectiveTLDPlusOne is executed from its real body on top of the same model as the reference"},
